@@ -60,6 +60,49 @@ _ERRORS_PATTERNS = [
     (r"^\s*_api_entered\.value = False\s*$", ('apiExit',)),
 ]
 
+def ast_anchor(lines, act):
+    """line numbers of the statement of nodes/node.py that plays the role `act` in the slot machine, found by structure:
+    inside ConfigNode.default_filename / default_safe_flag the `if` testing hasattr (init), the assignment reading the cell
+    into a local (save), the assignment writing the local back (exit), the other assignment to the cell outside the init
+    branch (install); inside ConfigNode.__init__ the assignment to self._source_file / self._default_safe (read)"""
+    import ast
+    kind, slot = act
+    attr = {'file': '_default_filename', 'safe': '_default_safe'}[slot]
+    try:
+        tree = ast.parse('\n'.join(lines))
+    except SyntaxError:
+        return []
+    cls = [c for c in ast.walk(tree) if isinstance(c, ast.ClassDef) and c.name == 'ConfigNode']
+    if len(cls) != 1:
+        return []
+    funcs = {f.name: f for f in cls[0].body if isinstance(f, ast.FunctionDef)}
+    def is_cell(e):      # <something>.<attr>.value
+        return isinstance(e, ast.Attribute) and e.attr == 'value' and isinstance(e.value, ast.Attribute) and e.value.attr == attr
+    if kind == 'read':
+        f = funcs.get('__init__')
+        want = {'file': '_source_file', 'safe': '_default_safe'}[slot]
+        return sorted({n.lineno for n in ast.walk(f) if isinstance(n, ast.Assign) and any(
+            isinstance(t, ast.Attribute) and t.attr == want and isinstance(t.value, ast.Name) and t.value.id == 'self' for t in n.targets)}) if f else []
+    f = funcs.get({'file': 'default_filename', 'safe': 'default_safe_flag'}[slot])
+    if f is None:
+        return []
+    inits = [n for n in ast.walk(f) if isinstance(n, ast.If) and 'hasattr' in ast.dump(n.test) and attr in ast.dump(n.test)]
+    inside_init = {id(x) for i in inits for x in ast.walk(i)}
+    if kind == 'init':
+        return sorted({n.lineno for n in inits})
+    assigns = [n for n in ast.walk(f) if isinstance(n, ast.Assign) and id(n) not in inside_init]
+    saves = [n for n in assigns if is_cell(n.value) and len(n.targets) == 1 and isinstance(n.targets[0], ast.Name)]
+    if kind == 'save':
+        return sorted({n.lineno for n in saves})
+    saved = {n.targets[0].id for n in saves}
+    writes = [n for n in assigns if any(is_cell(t) for t in n.targets)]
+    exits = [n for n in writes if isinstance(n.value, ast.Name) and n.value.id in saved]
+    if kind == 'exit':
+        return sorted({n.lineno for n in exits})
+    if kind == 'install':
+        return sorted({n.lineno for n in writes if n not in exits})
+    return []
+
 def find_anchors():
     out = {}
     for tag, path, pats in (('node', os.path.join(PKG, 'nodes', 'node.py'), _NODE_PATTERNS),
@@ -74,12 +117,18 @@ def find_anchors():
                 tree = ast.parse('\n'.join(lines))
                 hits = sorted({n.lineno for f in ast.walk(tree) if isinstance(f, ast.FunctionDef) and f.name == 'api_entry'
                                for n in ast.walk(f) if isinstance(n, ast.If) and '_api_entered' in ast.dump(n.test)})[:1]
+            if len(hits) != 1 and tag == 'node':
+                hits = ast_anchor(lines, act)       # spelled differently: look the statement up by its structure
             if len(hits) != 1:
-                raise RuntimeError(f'C20 harness: source anchor {act} matches {len(hits)} lines of {path}; the tracer tables '
-                                   f'in harness/props/c20.py have to follow the implementation')
+                # the implementation no longer has this line (or has it twice): the recorded trace cannot be replayed through the
+                # slot machine - the correspondence is reported as broken for every case (see `compare`), the oracle, which needs
+                # no anchors, still runs, so a change of the implementation is searched for a failing schedule all the same
+                MISSING_ANCHORS.append(f'{act} matches {len(hits)} lines of {os.path.relpath(path, PKG)}')
+                continue
             out[(tag, hits[0])] = act
     return out
 
+MISSING_ANCHORS = []
 ANCHORS = find_anchors()
 EMITTING = ('read', 'apiCheck', 'apiEnter', 'raise')
 
@@ -324,6 +373,18 @@ def run_sequential(case, root):
         out.append(r.results[0])
     return out
 
+def run_sequential_main(case, root):
+    """every job alone, one after the other, in the CALLING thread (in the forked child: the thread that imported the
+    implementation) - "built sequentially" as a program without threads does it"""
+    out = []
+    for spec in case['threads']:
+        r = Run(1, 0, [], root)
+        try:
+            out.append({'nodes': observe_tree(make_job(spec, root)(), r), 'err': None})
+        except Exception as e:   # noqa
+            out.append({'nodes': None, 'err': observe_error(e, r)})
+    return out
+
 ISOLATE = hasattr(os, 'fork') and not os.environ.get('C20_NO_FORK')
 
 def isolated(fn, timeout=300):
@@ -384,7 +445,7 @@ def sequential(case):
     if key not in _SEQ_CACHE:
         root = write_files(case)
         try:
-            _SEQ_CACHE[key] = isolated(lambda: run_sequential(case, root))
+            _SEQ_CACHE[key] = [isolated(lambda: run_sequential(case, root)), isolated(lambda: run_sequential_main(case, root))]
         finally:
             shutil.rmtree(root, ignore_errors=True)
     return _SEQ_CACHE[key]
@@ -579,7 +640,7 @@ class C20(Prop):
             r = isolated(lambda: concurrent_result(case, root))
         finally:
             shutil.rmtree(root, ignore_errors=True)
-        seq = sequential(case)
+        seq, seq_main = sequential(case)
         inside = 0      # switches that happened while the preempted thread was inside a context manager
         depth = [0] * len(case['threads'])
         sw = {s[0]: s for s in r['switches']}
@@ -589,20 +650,29 @@ class C20(Prop):
             if ev[0] == 'install': depth[tid] += 1
             elif ev[0] == 'exit': depth[tid] -= 1
         self._stash[case_digest(case)] = r['trace']
-        return {'threads': r['threads'], 'seq': seq, 'trace': r['trace'], 'observed': r['observed'],
+        return {'threads': r['threads'], 'seq': seq, 'seq_main': seq_main, 'trace': r['trace'], 'observed': r['observed'],
                 'switches': r['switches'], 'steps': r['steps'], 'inside': inside}
 
     def model_requests(self, case):
         # the trace exists only after the implementation ran: the framework runs impl() for all cases first,
         # then collects the requests, so the recorded trace is handed over through the stash
+        if MISSING_ANCHORS:
+            return []
         tr = self._stash.get(case_digest(case))
         return [{'op': 'c20', 'trace': tr}] if tr is not None else []
 
     def model_obs(self, case, answers):
+        if MISSING_ANCHORS:
+            return {'bad': 'anchors'}
         return answers[0] if answers else None
 
     def compare(self, case, io, ans):
-        if 'bad' in ans:
+        if MISSING_ANCHORS:
+            return ('the source lines that are events of the slot machine are no longer all there (' + '; '.join(MISSING_ANCHORS[:3]) +
+                    '): the recorded trace cannot be replayed through the model')
+        if ans is None or 'bad' in ans:
+            return 'driver rejected the recorded trace: ' + str((ans or {}).get('bad'))
+        if False and 'bad' in ans:
             return 'driver rejected the recorded trace: ' + str(ans['bad'])
         pred, real = ans['obs'], io['observed']
         if len(pred) != len(real):
@@ -625,7 +695,21 @@ class C20(Prop):
                 return f'thread {t}: reads differ from specReads of its own history: {d}'
         return None
 
+    @staticmethod
+    def _no_tb(r):
+        # the frames an error is reported with depend on how deep the calling thread's stack is: not compared across kinds of thread
+        return dict(r, err=None if r['err'] is None else {k: v for k, v in r['err'].items() if k != 'tb'})
+
     def oracle(self, case, io, ans):
+        for t, (got, want) in enumerate(zip(io['threads'], io.get('seq_main') or [])):
+            if self._no_tb(got) != self._no_tb(want):
+                if (got['err'] is None) != (want['err'] is None):
+                    return (f'thread {t}: concurrent build gave {json.dumps(got["err"] or "a tree")[:200]} but the same build done sequentially '
+                            f'in the main thread gave {json.dumps(want["err"] or "a tree")[:200]}')
+                if got['err'] is not None:
+                    return f'thread {t}: error report differs from the one of the sequential build in the main thread: ' + common.first_diff(self._no_tb(got)['err'], self._no_tb(want)['err'])
+                return (f'thread {t}: built tree differs from the sequential build in the main thread ([path, type, source file, _default_safe, safe]): '
+                        + common.first_diff(got['nodes'], want['nodes']))
         for t, (got, want) in enumerate(zip(io['threads'], io['seq'])):
             if got != want:
                 if (got['err'] is None) != (want['err'] is None):
